@@ -565,3 +565,39 @@ func Eval(t *Term, m Model) (uint64, bool) {
 	v, ok := evalBin(t.Op, t.W, vals[0], vals[1])
 	return v, ok
 }
+
+// EvalDefault evaluates t under m, treating variables missing from m as 0.
+func EvalDefault(t *Term, m Model) (uint64, bool) {
+	memo := map[int]uint64{}
+	return evalMemo(t, m, memo), true
+}
+
+func evalMemo(t *Term, m Model, memo map[int]uint64) uint64 {
+	if v, ok := memo[t.id]; ok {
+		return v
+	}
+	var res uint64
+	switch t.Op {
+	case OpConst:
+		res = t.Val
+	case OpVar:
+		v := m[t.Name]
+		if t.W == 0 {
+			res = v & 1
+		} else {
+			res = v & mask(t.W)
+		}
+	default:
+		mm := Model{}
+		args := make([]*Term, len(t.Args))
+		for i, a := range t.Args {
+			v := evalMemo(a, m, memo)
+			args[i] = &Term{Op: OpConst, W: a.W, Val: v}
+		}
+		_ = mm
+		tt := &Term{Op: t.Op, W: t.W, Val: t.Val, Args: args}
+		res, _ = Eval(tt, nil)
+	}
+	memo[t.id] = res
+	return res
+}
